@@ -332,6 +332,32 @@ def generate(tier, seed, ctx):
         add(rq_int(0, fn_poly(cs), a, b, 0.0, depth), "saturate/poly/depth%d" % depth, companions=False)
     for depth in (15, 16, 18) if not thorough else (15, 16, 17, 18, 19, 20):
         add(rq_fam(0, "noise", rng.uniform(1e3, 1e4), rng.uniform(0, 6), 0.0, 0.0, 1.0, 0.0, depth), "saturate/depth%d" % depth, companions=False)
+    # 10. history across the two entry points: Find_Epsilon(g, lo, hi, precision) immediately before Integrate(f, a, b, ...)
+    #     with ANOTHER integrand of the same callable type on bitwise the same limits (integrate_after_findEpsilon)
+    def add_hist(tr, fn, a, b, eps, depth, gfn, prec, fam, famop=False):
+        plain = rq_int(tr, fn, a, b, eps, depth, op="c03.fam" if famop else "c03.int")
+        if plain not in ctx["meta"]:
+            R.append(plain); ctx["meta"][plain] = dict(fam=fam + "/plain")
+        rq = "%s %s %s" % (plain.replace("c03.fam", "c03.histf", 1).replace("c03.int", "c03.hist", 1), gfn, hx(prec))
+        if rq not in ctx["meta"]:
+            R.append(rq); ctx["meta"][rq] = dict(fam=fam, base=plain, rel="hist")
+    for _ in range(40 * N):
+        deg = rng.choice([1, 2, 3, 5, 6, 8])
+        cs = [float(rng.randint(-4, 4)) for _ in range(deg + 1)]
+        if cs[-1] == 0:
+            cs[-1] = 1.0
+        gcs = [float(rng.randint(-4, 4)) + 0.5 for _ in range(rng.randint(1, 6))]
+        a, b = limits(rng.choice(["dyadic", "any"]))
+        if rng.random() < 0.5:
+            a, b = b, a
+        depth, eps = depth_eps(float(poly_scale(cs, a, b)), 8)
+        add_hist(1, fn_poly(cs), a, b, eps, depth, fn_poly(gcs), 10.0 ** -rng.randint(3, 9), "hist/poly")
+    for _ in range(16 * N):
+        w = rng.choice([-1, 1]) * rng.uniform(0.2, 0.95) * L4
+        a = rng.uniform(-2, 2); b = a + 1.0
+        I0 = abs(float(fam_reference(dict(kind="exp", w=w, s=0.0, k=0.0, a=a, b=b))))
+        add_hist(0, "exp %s %s %s" % (hx(w), hx(0.0), hx(0.0)), a, b, I0 * 10.0 ** rng.uniform(-10, -4), rng.choice([14, 16, 20]),
+                 "exp %s %s %s" % (hx(-w * 0.5), hx(0.0), hx(0.0)), 1e-6, "hist/exp", famop=True)
     # negative depth / zero epsilon on the model-compared side too
     for _ in range(30 * N):
         cs = [float(rng.randint(-4, 4)) for _ in range(rng.randint(1, 8))]
@@ -511,6 +537,12 @@ def finalize(ctx, exe):
                     or (A["xs"] is not None and B["xs"] is not None and A["xs"] != B["xs"]):
                 out.append(dict(fail("prop", "the outer integration depends on what the integrand does internally (nested Integrate call with another depth/epsilon)",
                                      "plain: val %r, %d evaluations, warn %d; nested: val %r, %d evaluations, warn %d" % (
+                                         A["val"], A["n"], A["warn"], B["val"], B["n"], B["warn"])), req=rq))
+        elif meta["rel"] == "hist":
+            if not (B["val"] == A["val"] or (math.isnan(A["val"]) and math.isnan(B["val"]))) or B["n"] != A["n"] or B["warn"] != A["warn"] \
+                    or (A["xs"] is not None and B["xs"] is not None and A["xs"] != B["xs"]):
+                out.append(dict(fail("prop", "Integrate depends on an earlier Find_Epsilon call (same limits, another integrand of the same callable type)",
+                                     "plain: val %r, %d evaluations, warn %d; after Find_Epsilon: val %r, %d evaluations, warn %d" % (
                                          A["val"], A["n"], A["warn"], B["val"], B["n"], B["warn"])), req=rq))
         elif meta["rel"] == "negeps":
             if B["val"] != A["val"] or B["n"] != A["n"] or B["warn"] != A["warn"]:
